@@ -1,31 +1,29 @@
 (* C10 — HDF5 files preserve the complete state of a field.
    ONLY statements, each closed by [exact] of a lemma proved in proofs/C10_hdf5.v, followed by
    Print Assumptions.  The payload type V is arbitrary (the writer and the reader never compute
-   with values); [conv] is what Field.__init__ does to a non-float real payload on the way back
-   (astype float64).  [fstate] is the complete state: region corners with their int/float tag,
+   with values); [conv] is what Field.__init__ does to a non-float real payload of a LEGACY file
+   (astype float64; the reader of the current layout passes the stored dtype and keeps the payload).  [fstate] is the complete state: region corners with their int/float tag,
    dims, units, tolerance factor, n, bc, subregions (ordered, with corners and attributes),
    nvdim, labels, unit, data kind, values, validity. *)
 From DF Require Import Prelude Region Mesh Hdf5 C10_hdf5.
 Open Scope Q_scope.
 
-(* read (write f) is f up to the two representation changes collected in [canon]: subregion
-   corners carry the dtype of the table, integer payloads have become float64 *)
+(* read (write f) is f; the only difference collected in [canon] is a representation tag:
+   subregion corners carry the dtype kind of the table (their values are untouched) *)
 Theorem C10_roundtrip : forall (V : Type) (conv : V -> V) (f : fstate V),
   wf_field f -> f_unit f <> Some none_marker ->
-  decode conv (NewFile (encode f)) = OK (canon conv f).
+  decode conv (NewFile (encode f)) = OK (canon f).
 Proof. exact (@roundtrip). Qed.
 Print Assumptions C10_roundtrip.
 
 (* attribute by attribute: everything the property lists comes back identical, for every
-   dimension count, component count, corner typing and payload kind; values are untouched
-   unless they are integers, and then they are untouched whenever float64 holds them *)
+   dimension count, component count, corner typing, payload kind (float, complex, integer of any
+   size - the values are never touched) and with or without labels / unit *)
 Theorem C10_roundtrip_state : forall (V : Type) (conv : V -> V) (f : fstate V),
   wf_field f -> f_unit f <> Some none_marker ->
-  (f_dk f = DInt -> Forall (fun v => conv v = v) (f_vals f)) ->
   exists g, decode conv (NewFile (encode f)) = OK g /\
     f_ck g = f_ck f /\ f_mesh g = f_mesh f /\ f_nvdim g = f_nvdim f /\ f_vdims g = f_vdims f /\
-    f_unit g = f_unit f /\ f_vals g = f_vals f /\ f_valid g = f_valid f /\
-    is_complex (f_dk g) = is_complex (f_dk f) /\ (f_dk f <> DInt -> f_dk g = f_dk f).
+    f_unit g = f_unit f /\ f_vals g = f_vals f /\ f_valid g = f_valid f /\ f_dk g = f_dk f.
 Proof. exact (@roundtrip_state). Qed.
 Print Assumptions C10_roundtrip_state.
 
@@ -39,15 +37,15 @@ Print Assumptions C10_roundtrip_nonvacuous.
    (no drift over generations of files), and it is again a well-formed field *)
 Theorem C10_second_generation : forall (V : Type) (conv : V -> V) (f : fstate V),
   wf_field f -> f_unit f <> Some none_marker ->
-  wf_field (canon conv f) /\
-  decode conv (NewFile (encode (canon conv f))) = OK (canon conv f).
-Proof. exact (fun V conv f W U => conj (canon_wf conv f W) (second_generation conv f W U)). Qed.
+  wf_field (canon f) /\
+  decode conv (NewFile (encode (canon f))) = OK (canon f).
+Proof. exact (fun V conv f W U => conj (canon_wf f W) (second_generation conv f W U)). Qed.
 Print Assumptions C10_second_generation.
 
 (* the file determines the state: different fields never share a file *)
 Theorem C10_file_determines_state : forall (V : Type) (conv : V -> V) (f1 f2 : fstate V),
   wf_field f1 -> wf_field f2 -> f_unit f1 <> Some none_marker -> f_unit f2 <> Some none_marker ->
-  encode f1 = encode f2 -> canon conv f1 = canon conv f2.
+  encode f1 = encode f2 -> canon f1 = canon f2.
 Proof. exact (@encode_injective). Qed.
 Print Assumptions C10_file_determines_state.
 
@@ -57,7 +55,8 @@ Theorem C10_wf_test_sound : forall (V : Type) (f : fstate V), wf_fieldb f = true
 Proof. exact (@wf_fieldb_sound). Qed.
 Print Assumptions C10_wf_test_sound.
 
-(* integers up to 2^53 in magnitude survive the float64 conversion of the reader *)
+(* legacy files only: integers up to 2^53 in magnitude survive the float64 conversion of the
+   legacy reader (the current layout keeps every payload exactly, see above) *)
 Theorem C10_int_payload_exact : forall z : Z, (Z.abs z <= 2 ^ 53)%Z -> round_f64 z = z.
 Proof. exact round_f64_exact. Qed.
 Print Assumptions C10_int_payload_exact.
@@ -113,25 +112,26 @@ Theorem C10_reader_refuses_other_versions : forall (V : Type) (conv : V -> V) (h
 Proof. exact (@decode_refuses_version). Qed.
 Print Assumptions C10_reader_refuses_other_versions.
 
-(* ---- the guards of C10_roundtrip_state are necessary: witnesses on the faithful model ---- *)
-(* without "unit is not the text None": the marker written for a missing unit collides *)
+(* ---- the one guard of C10_roundtrip that is not a constructor invariant is necessary ---- *)
+(* without "unit is not the text None": the marker written for a missing unit collides
+   (known finding C10-unit-marker) *)
 Theorem C10_roundtrip_unit_marker_refuted :
   exists f : fstate Z, wf_field f /\
     exists g, decode round_f64 (NewFile (encode f)) = OK g /\ f_unit g <> f_unit f.
 Proof. exact marker_refuted. Qed.
 Print Assumptions C10_roundtrip_unit_marker_refuted.
 
-(* without "integer payloads fit float64": 2^53 + 1 comes back as 2^53 *)
-Theorem C10_roundtrip_int_beyond_2p53_refuted :
-  exists f : fstate Z, wf_field f /\ f_unit f <> Some none_marker /\
-    exists g, decode round_f64 (NewFile (encode f)) = OK g /\ f_vals g <> f_vals f.
-Proof. exact bigint_refuted. Qed.
-Print Assumptions C10_roundtrip_int_beyond_2p53_refuted.
+(* ---- the two former limits, repaired in the reader (66ed56c8, 8f3270c2), now instances ---- *)
+(* an int64 payload 2^53 + 1, which float64 cannot hold, comes back exactly, as an integer *)
+Theorem C10_roundtrip_int_beyond_2p53 :
+  wf_field w_bigint /\ decode round_f64 (NewFile (encode w_bigint)) = OK w_bigint /\
+  round_f64 (2 ^ 53 + 1) <> (2 ^ 53 + 1)%Z.
+Proof. exact bigint_kept. Qed.
+Print Assumptions C10_roundtrip_int_beyond_2p53.
 
-(* without "labels are absent only on scalar fields" (part of wf_field): a label-less
-   3-vector comes back labelled x, y, z *)
-Theorem C10_roundtrip_absent_labels_refuted :
-  exists f : fstate Z, f_vdims f = None /\ f_nvdim f = 3%Z /\
-    exists g, decode round_f64 (NewFile (encode f)) = OK g /\ f_vdims g = Some ["x"; "y"; "z"]%string.
-Proof. exact nolabels_refuted. Qed.
-Print Assumptions C10_roundtrip_absent_labels_refuted.
+(* a label-less 3-vector stays label-less *)
+Theorem C10_roundtrip_absent_labels :
+  wf_field w_nolabels /\ f_vdims w_nolabels = None /\ f_nvdim w_nolabels = 3%Z /\
+  decode round_f64 (NewFile (encode w_nolabels)) = OK w_nolabels.
+Proof. exact nolabels_kept. Qed.
+Print Assumptions C10_roundtrip_absent_labels.
